@@ -7,7 +7,9 @@
              inFallbackState        -> waitForSend(fallback event): sendCh <- event, wait for the send loop
              else queue.put(id, offset, state); ErrQueueFull (after the retries) -> error, nothing sent
                   ok -> wakeUpPeer  (markWorking; fast path / slow path, exactly as in Model/Wakeup.v)
-     close   put(id, closed) ok     -> wakeUpPeer
+     close   inFallbackState        -> waitForSend(typeStreamClose event)   (the close follows the stream's
+                                       fallback data on the socket; fix of C07:close-overtakes-fallback-data)
+             put(id, closed) ok     -> wakeUpPeer
              put fails              -> waitForSend(typeStreamClose event)
    The adversary decides for every Flush whether shared-memory allocation succeeds and whether the
    queue is full, and for every close whether the put fails: these choices are part of the program
@@ -93,7 +95,7 @@ Definition mpstep (i : nat) (s : mst) : mst :=
         else msetp i (mloc MMark (mtodo p) (S (nxt p)) false false) (put_q (i, DData (nxt p)) s)
       | OClose qfull :: _ =>
         if closed p then msetp i (mfin p) s
-        else if qfull then msetp i (mloc MWait (mtodo p) (nxt p) (infb p) true) (put_s (i, DEnd) i s)
+        else if infb p || qfull then msetp i (mloc MWait (mtodo p) (nxt p) (infb p) true) (put_s (i, DEnd) i s)
         else msetp i (mloc MMark (mtodo p) (nxt p) (infb p) true) (put_q (i, DEnd) s)
       end
     | MMark => if mflag s then msetp i (mfin p) s else msetp i (mmkp MWr p) (mset_flag true s)
